@@ -138,6 +138,44 @@ theorem bin2_lt (ea ep : List ℝ) (az pol : ℝ) (k : Nat) (h : bin2 ea ep az p
         _ = (i + 1) * (ep.length - 1) := by ring
         _ ≤ (ea.length - 1) * (ep.length - 1) := Nat.mul_le_mul_right _ (by omega)
 
+
+/-- for sorted edges a value has a bin exactly when it lies between the first and the last edge -/
+theorem binFrom_isSome (t : List ℝ) (x : ℝ) (ht : t ≠ []) (hs : t.Pairwise (· ≤ ·)) :
+    (binFrom t x).isSome = true ↔ x ≤ t.getLast ht := by
+  induction t with
+  | nil => exact absurd rfl ht
+  | cons hi t ih =>
+    cases t with
+    | nil =>
+      simp only [binFrom, List.getLast_singleton]
+      split
+      · rename_i h; rw [le_real] at h; simp [h]
+      · rename_i h; rw [le_real] at h; simp [h]
+    | cons h2 rest =>
+      have hs' : (h2 :: rest).Pairwise (· ≤ ·) := (List.pairwise_cons.mp hs).2
+      have hlast : hi ≤ (h2 :: rest).getLast (by simp) :=
+        (List.pairwise_cons.mp hs).1 _ (List.getLast_mem _)
+      have ih' := ih (by simp) hs'
+      simp only [binFrom, List.getLast_cons_cons]
+      split
+      · rename_i h
+        rw [lt_real] at h
+        simp only [Option.isSome_some, true_iff]
+        linarith
+      · rw [Option.isSome_map]
+        exact ih'
+
+theorem binIndex_isSome_iff (lo : ℝ) (t : List ℝ) (x : ℝ) (ht : t ≠ []) (hs : (lo :: t).Pairwise (· ≤ ·)) :
+    (binIndex (lo :: t) x).isSome = true ↔ lo ≤ x ∧ x ≤ t.getLast ht := by
+  simp only [binIndex]
+  split
+  · rename_i h; rw [lt_real] at h
+    simp only [Option.isSome_none, Bool.false_eq_true, false_iff, not_and]
+    intro h'; linarith
+  · rename_i h; rw [lt_real, not_lt] at h
+    rw [binFrom_isSome t x ht (List.pairwise_cons.mp hs).2]
+    exact ⟨fun h' => ⟨h, h'⟩, fun h' => h'.2⟩
+
 /-! ### masked mean -/
 
 theorem validCount_map (f : ℝ → ℝ) (h : List ℝ) (mask : List Bool) :
